@@ -86,8 +86,62 @@ def t_is_not_none_style(trees):
         T().visit(t); ast.fix_missing_locations(t)
     return trees
 
+def t_rename_locals(trees):
+    """every local variable (not a parameter, not a nested function) of every function gets the suffix _x"""
+    import builtins
+    for m, t in trees.items():
+        glob = set()
+        for st in t.body:
+            for n in ast.walk(st) if isinstance(st, (ast.Import, ast.ImportFrom, ast.Assign)) else []:
+                if isinstance(n, ast.alias):
+                    glob.add((n.asname or n.name).split(".")[0])
+                if isinstance(n, ast.Name):
+                    glob.add(n.id)
+            if isinstance(st, (ast.FunctionDef, ast.ClassDef)):
+                glob.add(st.name)
+        def do_func(fn, outer_locals):
+            params = {a.arg for a in fn.args.posonlyargs + fn.args.args + fn.args.kwonlyargs}
+            if fn.args.vararg: params.add(fn.args.vararg.arg)
+            if fn.args.kwarg: params.add(fn.args.kwarg.arg)
+            locs = set()
+            nested = []
+            stack = list(fn.body)
+            while stack:
+                n = stack.pop()
+                if isinstance(n, (ast.FunctionDef, ast.ClassDef)):
+                    nested.append(n); continue
+                if isinstance(n, ast.Lambda):
+                    continue
+                if isinstance(n, ast.Name) and isinstance(n.ctx, (ast.Store, ast.Del)):
+                    locs.add(n.id)
+                stack.extend(ast.iter_child_nodes(n))
+            locs -= params
+            ren = {x: x + "_x" for x in locs}
+            ren.update({k: v for k, v in outer_locals.items() if k not in params and k not in locs})
+            stack = list(fn.body)
+            while stack:
+                n = stack.pop()
+                if isinstance(n, (ast.FunctionDef, ast.ClassDef)):
+                    continue
+                if isinstance(n, ast.Name) and n.id in ren:
+                    # lambda parameters shadow: keep simple, lambdas in this code base do not shadow locals
+                    n.id = ren[n.id]
+                stack.extend(ast.iter_child_nodes(n))
+            for nf in nested:
+                if isinstance(nf, ast.FunctionDef):
+                    do_func(nf, ren)
+        for st in t.body:
+            if isinstance(st, ast.FunctionDef):
+                do_func(st, {})
+            elif isinstance(st, ast.ClassDef):
+                for b in st.body:
+                    if isinstance(b, ast.FunctionDef):
+                        do_func(b, {})
+        ast.fix_missing_locations(t)
+    return trees
+
 BATTERY = {"roundtrip": t_roundtrip, "prints": t_prints, "extra_param": t_extra_param, "docstrings": t_docstrings,
-           "helper": t_helper, "compare_mirror": t_compare_mirror, "is_not_none_style": t_is_not_none_style}
+           "helper": t_helper, "compare_mirror": t_compare_mirror, "is_not_none_style": t_is_not_none_style, "rename_locals": t_rename_locals}
 
 names = sys.argv[1:] or list(BATTERY)
 for nm in names:
